@@ -494,11 +494,11 @@ fn open_none(e: &E) -> bool {
 /// operators, `&&`/`||`, `if`, blocks, assignments, `while`, `return`), one function.
 pub fn gen_program(p: &mut Prng, frag: bool) -> Generated {
     let depth = 2 + p.below(3) as u32;
-    let nhelpers = if frag { 0 } else { match p.below(10) {
+    let nhelpers = match p.below(10) {
         0..=4 => 0,
         5..=7 => 1,
         _ => 2,
-    } };
+    };
     let mut g = G { p, var_tys: vec![], annotated: vec![], scope: vec![], ret: T::I, sigs: vec![], key: 0, budget: 0, frag };
     let mut fns = vec![];
     for i in 0..=nhelpers {
